@@ -91,14 +91,20 @@ package fiber
 
 // Cookie(cookie) puts exactly that name/value into the response (replacing a response cookie of the same
 // name, keeping all others); a SessionOnly cookie gets neither Max-Age nor Expires.
+//@ macro oneLineCookie(ck) = noCRLF(ck.Name) && noCRLF(ck.Value) && noCRLF(ck.Path) && noCRLF(ck.Domain)
+//@ func containsCRLF pure
+//@   props C07
+//@   loop 1
+//@     invariant none-so-far: 0 <= i && i <= len(s) && forall(k, 0, i, s[k] != '\r' && s[k] != '\n')
+//@   ensures exact: result == !noCRLF(s)
 //@ func (*DefaultCtx).Cookie
 //@   props C12 C07
 //@   modifies jarHas, jarVal, jarAttr, ckKey, ckVal, ckAttr, jcPath, jcExp, jcPooled
 //@   atcall @fasthttp.(*Cookie).SetMaxAge: session-only-no-max-age: !cookie.SessionOnly
 //@   atcall @fasthttp.(*Cookie).SetExpire: session-only-no-expires: !cookie.SessionOnly
 //@   atcall @fasthttp.(*ResponseHeader).SetCookie: name-and-value-as-given: ckKey[fcookie] == old(cookie.Name) && ckVal[fcookie] == old(cookie.Value)
-//@   atcall @fasthttp.(*ResponseHeader).SetCookie: [C07] cookie-fields-one-line: noCRLF(old(cookie.Name)) && noCRLF(old(cookie.Value)) && noCRLF(old(cookie.Path)) && noCRLF(old(cookie.Domain))   // requested by cw-C07; fails genuinely (their replay c07_cookie_crlf_test.go)
-//@   ensures in-response: jarHas[respH(c)][cookie.Name] && jarVal[respH(c)][cookie.Name] == cookie.Value
+//@   atcall @fasthttp.(*ResponseHeader).SetCookie: [C07] cookie-fields-one-line: noCRLF(old(cookie.Name)) && noCRLF(old(cookie.Value)) && noCRLF(old(cookie.Path)) && noCRLF(old(cookie.Domain))   // requested by cw-C07; replay/fixed/c07_cookie_crlf_test.go
+//@   ensures in-response: oneLineCookie(cookie) ==> jarHas[respH(c)][cookie.Name] && jarVal[respH(c)][cookie.Name] == cookie.Value
 //@   ensures others-kept: forallS(k, k != cookie.Name ==> jarHas[respH(c)][k] == old(jarHas[respH(c)][k]) && jarVal[respH(c)][k] == old(jarVal[respH(c)][k]) && jarAttr[respH(c)][k] == old(jarAttr[respH(c)][k]))
 //@   ensures other-headers-kept: forallI(h, h != respH(c) ==> jarHas[h] == old(jarHas[h]) && jarVal[h] == old(jarVal[h]) && jarAttr[h] == old(jarAttr[h]))
 //@   ensures session-only-no-lifetime: cookie.SessionOnly ==> !called(@fasthttp.(*Cookie).SetMaxAge) && !called(@fasthttp.(*Cookie).SetExpire)
@@ -106,11 +112,11 @@ package fiber
 // ClearCookie(names...) expires every named cookie at the client.
 //@ func (*DefaultCtx).ClearCookie
 //@   props C12 C07
-//@   atcall @fasthttp.(*ResponseHeader).DelClientCookie: [C07] name-one-line: noCRLF(key)   // requested by cw-C07 (key: the callee's formal = key[i]); fails genuinely
+//@   atcall @fasthttp.(*ResponseHeader).DelClientCookie: [C07] name-one-line: noCRLF(key)   // requested by cw-C07 (key: the callee's formal = key[i])
 //@   modifies jarHas, jarVal, jarAttr, jarVisits, jarVisitAtNext
 //@   loop 1
-//@     invariant expired-so-far: forall(k, 0, rangeindex + 1, jarHas[respH(c)][key[k]] && attrExpired(jarAttr[respH(c)][key[k]]))
-//@   ensures named-cookies-expired: forall(k, 0, len(key), jarHas[respH(c)][key[k]] && attrExpired(jarAttr[respH(c)][key[k]]))
+//@     invariant expired-so-far: forall(k, 0, rangeindex + 1, noCRLF(key[k]) ==> jarHas[respH(c)][key[k]] && attrExpired(jarAttr[respH(c)][key[k]]))
+//@   ensures named-cookies-expired: forall(k, 0, len(key), noCRLF(key[k]) ==> jarHas[respH(c)][key[k]] && attrExpired(jarAttr[respH(c)][key[k]]))
 
 // processFlashMessages: nothing to send => the response is not touched; otherwise the whole list is
 // encoded (cannot fail) and sent as ONE session-only cookie named fiber_flash whose value is the encoding.
